@@ -742,6 +742,49 @@ def h_second_stack_logs_in(ctx):
             ("stack A's socket bytes are whole frames the peer decrypts although stack B logs in meanwhile (%d frame(s), %d bytes)" % (frames, len(stream)), ok and frames == 1)]
 
 
+def h_each_once(ctx):
+    """'each stanza sent is transmitted exactly once': entities of the kinds that several sibling protocol layers could feel responsible for
+    (iq stanzas by namespace) are sent from the top, one after the other; the strict peer cuts, decrypts and decodes the socket bytes and
+    finds exactly one frame per entity, in order"""
+    from dissononce.processing.impl.cipherstate import CipherState
+    from dissononce.cipher.aesgcm import AESGCMCipher
+    from yowsup.layers.coder.decoder import ReadDecoder
+    from yowsup.layers.coder.tokendictionary import TokenDictionary
+    from checks import c09_templates as T
+    tr = Tracer()
+    st, insts, disp, iq, key = build(tr, False)
+    c = T._cls
+    which = ctx.choice("entity", ["contact sync", "clean dirty", "last seen", "push config", "props", "group list", "ping"])
+    ent = {"contact sync": lambda: c("protocol_contacts.protocolentities.iq_sync_get.GetSyncIqProtocolEntity")(["4915901234567"]),
+           "clean dirty": lambda: c("protocol_ib.protocolentities.clean_iq.CleanIqProtocolEntity")("groups", "s.whatsapp.net"),
+           "last seen": lambda: c("protocol_presence.protocolentities.iq_lastseen.LastseenIqProtocolEntity")("4915901234567@s.whatsapp.net"),
+           "push config": lambda: c("protocol_iq.protocolentities.iq_push.PushIqProtocolEntity")(),
+           "props": lambda: c("protocol_iq.protocolentities.iq_props.PropsIqProtocolEntity")(),
+           "group list": lambda: c("protocol_groups.protocolentities.iq_groups_list.ListGroupsIqProtocolEntity")(),
+           "ping": lambda: c("protocol_iq.protocolentities.iq_ping.PingIqProtocolEntity")(),
+           "presence": lambda: c("protocol_presence.protocolentities.presence_available.AvailablePresenceProtocolEntity")()}[which]()
+    do_send("app", insts, iq, 1)
+    insts[-1].send(ent)
+    do_send("app2", insts, iq, 2)
+    peer = CipherState(AESGCMCipher())
+    peer.initialize_key(key)
+    stream = b"".join(disp.out)
+    tags, i, ok = [], 0, True
+    try:
+        while i < len(stream):
+            n = int.from_bytes(stream[i:i + 3], "big")
+            pt = peer.decrypt_with_ad(b"", stream[i + 3:i + 3 + n])
+            node = ReadDecoder(TokenDictionary()).getProtocolTreeNode(bytearray(pt))
+            tags.append((node.tag, node["id"]))
+            i += 3 + n
+    except Exception:
+        ok = False
+    want = ent.toProtocolTreeNode()
+    mine = [t for t in tags if t[0] == want.tag and t[1] == want["id"]]
+    return [("the peer cuts, decrypts and decodes every frame", ok),
+            ("three entities were sent: the peer finds exactly three stanzas, the one under test exactly once (%s)" % (tags,), len(tags) == 3 and len(mine) == 1)]
+
+
 def h_socket_wire(ctx, n):
     """below the network layer: the real asyncore dispatcher over a socket double whose sends accept all, half or nothing of the data
     (back-pressure, solver's choice): the peer of each connection receives what was written to it in order -- a later write never overtakes
@@ -799,6 +842,7 @@ def h_big_frames(ctx):
 def cases(tier):
     cs = [dict(name="after-peer-drop[app+keepalive]", fn=h_after_peer_drop, args=(("app", "keepalive"),)),
           dict(name="big-frames", fn=h_big_frames, keep_samples=8),
+          dict(name="each-stanza-once[iq kinds through the parallel protocol layers]", fn=h_each_once, keep_samples=10),
           dict(name="second-stack-logs-in[one pre-emption]", fn=h_second_stack_logs_in, keep_samples=40),
           dict(name="socket-wire[asyncore dispatcher under back-pressure,len<=6]", fn=h_socket_wire, args=(6,), max_paths=200000, timeout_s=900, weight=30),
           dict(name="send-in-close-window[app+keepalive]", fn=h_send_in_close_window, args=(("app", "keepalive"),)),
